@@ -282,17 +282,23 @@ def _aff_of(v):
     return None
 
 
+def _lin(cs1, k1, cs2, k2):
+    out = {}
+    for v in set(cs1) | set(cs2):
+        c = k1 * cs1.get(v, 0) + k2 * cs2.get(v, 0)
+        if c != 0:
+            out[v] = c
+    return out
+
+
 def aff_arith(interp, name, a, b):
-    """Arithmetic when at least one operand is an affine form; None if not applicable."""
+    """Arithmetic when at least one operand is a linear form; None if not applicable."""
     x, y = _aff_of(a), _aff_of(b)
     if x is None or y is None or not (isinstance(a, Aff) or isinstance(b, Aff)):
         return None
-    kinds = (x.kind, y.kind)
     both_int = (isinstance(a, Aff) and a.kind == 'int' or isinstance(a, Const) and isinstance(a.value, int)) and \
                (isinstance(b, Aff) and b.kind == 'int' or isinstance(b, Const) and isinstance(b.value, int))
-    kinds = tuple('num' if kk == 'int' else kk for kk in kinds)
-    x = Aff(x.coeff, x.const, kinds[0])
-    y = Aff(y.coeff, y.const, kinds[1])
+    kinds = tuple('num' if kk == 'int' else kk for kk in (x.kind, y.kind))
     if name in ('add', 'sub'):
         sign = 1 if name == 'add' else -1
         if kinds == ('num', 'num'):
@@ -305,37 +311,40 @@ def aff_arith(interp, name, a, b):
             kind = 'td'
         else:
             raise Raised(Exc('TypeError', 'unsupported operand kinds %s %s' % kinds))
-        return Aff(x.coeff + sign * y.coeff, x.const + sign * y.const, kind)
+        return Aff(_lin(x.coeffs, 1, y.coeffs, sign), x.const + sign * y.const, kind)
     if name == 'mul':
         if kinds == ('num', 'num') or 'td' in kinds and 'num' in kinds:
             kind = 'td' if 'td' in kinds else ('int' if both_int else 'num')
             if x.is_const():
-                return Aff(y.coeff * x.const, y.const * x.const, kind)
+                return Aff(_lin(y.coeffs, x.const, {}, 0), y.const * x.const, kind)
             if y.is_const():
-                return Aff(x.coeff * y.const, x.const * y.const, kind)
-            raise Unmodelled('product of two non-constant affine forms')
+                return Aff(_lin(x.coeffs, y.const, {}, 0), x.const * y.const, kind)
+            raise Unmodelled('product of two non-constant linear forms')
         raise Raised(Exc('TypeError', 'unsupported operand kinds %s %s' % kinds))
     if name == 'truediv':
-        if y.kind == 'num' and y.is_const() and x.kind in ('num', 'td'):
+        if kinds[1] == 'num' and y.is_const() and kinds[0] in ('num', 'td'):
             if y.const == 0:
                 raise Raised(Exc('ZeroDivisionError'))
-            return Aff(x.coeff / y.const, x.const / y.const, x.kind)
-        raise Unmodelled('division by a non-constant affine form')
-    raise Unmodelled('operator %s on affine forms' % name)
+            return Aff(_lin(x.coeffs, 1 / y.const, {}, 0), x.const / y.const, 'num' if kinds[0] == 'num' else 'td')
+        raise Unmodelled('division by a non-constant linear form')
+    raise Unmodelled('operator %s on linear forms' % name)
 
 
 def aff_compare(interp, name, a, b, text):
     x, y = _aff_of(a), _aff_of(b)
     if x is None or y is None or not (isinstance(a, Aff) or isinstance(b, Aff)):
         return None
-    if x.kind != y.kind and not (x.kind in ('num', 'int') and y.kind in ('num', 'int')):
+    kx = 'num' if x.kind == 'int' else x.kind
+    ky = 'num' if y.kind == 'int' else y.kind
+    if kx != ky:
         if name in ('eq', 'ne'):
             return Const(name == 'ne')
         raise Raised(Exc('TypeError', 'cannot order %s and %s' % (x.kind, y.kind)))
-    dc, d0 = x.coeff - y.coeff, x.const - y.const
-    if dc == 0:
+    dc, d0 = _lin(x.coeffs, 1, y.coeffs, -1), x.const - y.const
+    if not dc:
         return Const(CMP_PY[name](d0, 0))
-    return Const(interp.decide('%s*x%+g %s 0' % (dc, float(d0), name), [True, False], AffCmp(name, dc, d0)))
+    sub = AffCmp(name, dc, d0)
+    return Const(interp.decide('%r' % (sub,), [True, False], sub))
 
 
 def arith(interp, name, a, b):
@@ -464,6 +473,8 @@ def iter_items(interp, v):
 
 
 def index_value(interp, base, idx):
+    if isinstance(idx, Aff):
+        interp.state.events.append(('subscript', base, idx, list(interp.state.notes)))
     if isinstance(base, DictV):
         r = base.lookup(idx)
         if r is not None:
@@ -537,6 +548,8 @@ def index_value(interp, base, idx):
 
 
 def slice_value(interp, base, lo, hi, st):
+    if isinstance(lo, Aff) or isinstance(hi, Aff):
+        interp.state.events.append(('slice', base, lo, hi, list(interp.state.notes)))
     def cint(x):
         return x.value if isinstance(x, Const) and (x.value is None or isinstance(x.value, int)) else 'sym'
     l, h, s = (None if lo is None else cint(lo)), (None if hi is None else cint(hi)), (None if st is None else cint(st))
@@ -618,7 +631,7 @@ def call_type(interp, name, args, kwargs):
         a = args[0]
         if name == 'int' and a.kind != 'int':
             raise Unmodelled('int() of a non-integral affine form')
-        return Aff(a.coeff, a.const, 'int' if name == 'int' else 'num')
+        return Aff(dict(a.coeffs), a.const, 'int' if name == 'int' else 'num')
     if name in ('int', 'float', 'complex'):
         if not args:
             return Const({'int': 0, 'float': 0.0, 'complex': 0j}[name])
@@ -684,7 +697,7 @@ def call_type(interp, name, args, kwargs):
         tot = Aff(0, 0, 'td')
         for kk, vv in kwargs.items():
             a = _aff_of(vv)
-            tot = Aff(tot.coeff + a.coeff * scale[kk], tot.const + a.const * scale[kk], 'td')
+            tot = Aff(_lin(tot.coeffs, 1, a.coeffs, scale[kk]), tot.const + a.const * scale[kk], 'td')
         return tot
     if name == 'datetime.datetime':
         if all(a.tag in NUMERIC for a in args):
@@ -719,6 +732,8 @@ def call_builtin(interp, name, args, kwargs):
             return Const(len(a.pairs))
         if isinstance(a, Const) and isinstance(a.value, str):
             return Const(len(a.value))
+        if isinstance(a, Sym) and a.tag in ('str', 'list', 'tuple') and getattr(interp, 'len_as_variable', False):
+            return Aff({'len(%s)' % a.name: 1}, 0, 'int')
         if a.tag in ('str', 'list', 'tuple', 'dict') or isinstance(a, ListV):
             return Atom('len', [a], 'int')
         if a.tag is None:
@@ -1112,7 +1127,7 @@ def call_method(interp, base, attr, args, kwargs, text=''):
             return Atom(attr, [base], 'float')
         raise Raised(Exc('AttributeError', attr))
     if isinstance(base, Aff) and base.kind == 'td' and attr == 'total_seconds':
-        return Aff(base.coeff, base.const, 'num')
+        return Aff(dict(base.coeffs), base.const, 'num')
     if tag == 'timedelta' and attr == 'total_seconds':
         return Atom('total_seconds', [base], 'float')
     if tag in NUMERIC:
